@@ -197,13 +197,23 @@ namespace
     const bool bounded_values = std::isfinite(vmax) && vmax < 1e300;
     // probes: every half-step lattice point inside or on the polygon
     const bool large = poly[0][0] == 10;
+    // ... and next to each of them a point in general position (+0.137, +0.059 lattice units): on the half-step lattice a probe is a node, an edge
+    // midpoint or a centroid-like point of the triangles, which is where several kinds of interpolation error vanish
     for (int x2 = (large ? 20 : -4); x2 <= (large ? 60 : 10); x2 += (large ? 2 : 1)) for (int y2 = (large ? 20 : -2); y2 <= (large ? 60 : 10); y2 += (large ? 2 : 1))
+      for (int general = 0; general < 2; ++general)
         {
-          if (!inside_closed(poly, x2, y2)) continue;
-          const double x = fx(k, 0.5 * x2), y = fy(k, 0.5 * y2);
+          if (general == 0 && !inside_closed(poly, x2, y2)) continue;
+          if (general == 1)
+            {
+              std::vector<georef::IP> p2000;
+              for (auto &q : poly) p2000.push_back({{2000*q[0], 2000*q[1]}});
+              if (!georef::in_closed_polygon(p2000, {{1000*x2 + 274, 1000*y2 + 118}})) continue;
+            }
+          const double lx = 0.5 * x2 + (general ? 0.137 : 0.0), ly = 0.5 * y2 + (general ? 0.059 : 0.0);   // lattice units
+          const double x = fx(k, lx), y = fy(k, ly);
           // spherical polygon edges are not exactly representable after the conversion to radians: stay off them
           bool on_edge = false;
-          if (k.spherical)
+          if (k.spherical && general == 0)
             {
               std::vector<georef::IP> p2;
               for (auto &q : poly) p2.push_back({{2*q[0], 2*q[1]}});
@@ -218,7 +228,7 @@ namespace
           auto extra = [&](double expect) { return JObj().num("x", x).num("y", y).num("recovered_depth", v).num("expected", expect).done(); };
           // is this probe a node?
           const Node *node = nullptr;
-          if (x2 % 2 == 0 && y2 % 2 == 0) for (auto &n : nodes) if (n.p[0] == x2/2 && n.p[1] == y2/2) node = &n;
+          if (general == 0 && x2 % 2 == 0 && y2 % 2 == 0) for (auto &n : nodes) if (n.p[0] == x2/2 && n.p[1] == y2/2) node = &n;
           const double tol = 1e-6;
           if (node && bounded_values)
             {
@@ -249,7 +259,7 @@ namespace
               const LP P = k.pts[0];
               if (P[0] > xmin && P[0] < xmax && P[1] > ymin && P[1] < ymax)
                 {
-                  const double px = 0.5 * x2, py = 0.5 * y2, vP = nodes.back().v;
+                  const double px = lx, py = ly, vP = nodes.back().v;
                   bool found = false; double expect = 0;
                   for (size_t i = 0; i < 4 && !found; ++i)
                     {
@@ -270,7 +280,7 @@ namespace
           if (k.affine)
             {
               ctx.count(c_affine);
-              const double expect = k.a + k.b * (0.5*x2) + k.c * (0.5*y2);
+              const double expect = k.a + k.b * lx + k.c * ly;
               if (!(std::fabs(v - expect) <= 1e-6 * expect)) { fail("affine-data-not-reproduced", "nodal values sampled from one affine function are not interpolated by that function", extra(expect)); return; }
             }
           // (cartesian only: there both sides receive bit-identical node coordinates, so that even a non-unique Delaunay triangulation - cocircular or collinear nodes - comes out the same)
@@ -413,7 +423,7 @@ int main(int argc, char **argv)
   spec.level = "exploration";
   spec.rule = "for each of four small lattice polygons (square with a corner in the origin, rectangle with an edge on y=0, concave L, square away from the axes): every set of at most 2|3 additional value points from the integer lattice points inside or on the polygon "
               "(corners included) x every assignment of values from a 3-value set, as min depth and as max depth, cartesian and spherical (also written across the date line and near longitude 360), value-less item first or last, feature type and item grouping round-robin (thorough: all three feature types for sets up to 2 points); "
-              "plus the affine family (4 affine functions, all nodes listed) over the same point sets and over a large plate (20 x 20 units, also across the date line) with up to two value points close to its corners. Every half-step lattice point inside or on the polygon is probed. non-trivial: every case that built";
+              "plus the affine family (4 affine functions, all nodes listed) over the same point sets and over a large plate (20 x 20 units, also across the date line) with up to two value points close to its corners. Every half-step lattice point inside or on the polygon is probed, and next to each a point in general position (+0.137, +0.059 lattice units). non-trivial: every case that built";
   spec.assumptions = {"the local depth limit is recovered from the public API by bisection on membership (tag) along the vertical, to 1e-7 m",
                       "documented semantics: a value without points sets every polygon corner; a value with points sets those points, replacing a corner's value when the point coincides with the corner; without a value-less item corners keep the schema default",
                       "spherical polygon edges are not probed (not exactly representable); tolerance 1e-6 relative"
